@@ -176,6 +176,14 @@ def check(prog, ctx):
                     writes.append((row, col, val, e))
                 except Undecided as ex:
                     writes.append((None, None, None, e))
+        if s['k'] == 'Decl':                  # named sub-terms / index names declared after the Newton loop
+            try:
+                sts_, dn_ = sx.exec(s, [stx])
+                if len(sts_) == 1 and not dn_:
+                    stx = sts_[0]
+                    continue
+            except Undecided:
+                pass
         if s['k'] != 'Expr':
             writes.append((None, None, None, s))
     mid = (xa + xb) / 2
